@@ -160,3 +160,7 @@ func AllocMark() int { return 0 }
 
 // Symbolic reports whether the code runs under the symbolic executor.
 func Symbolic() bool { return false }
+
+// PoolAllChoices makes every sync.Pool.Get explore each pooled object (executor only; natively the
+// real pool decides).
+func PoolAllChoices(on bool) {}
